@@ -1,8 +1,58 @@
+import PyGam.Model.Pirls
+import PyGam.Model.Solve
 import PyGam.Drv.Common
 namespace PyGam.Drv.C01
 open PyGam PyGam.Drv
 
-/-- operations of the C01 model driver (`C01 <op> <args…>`); `none` ↦ `bad-op` -/
-def handle : List String → Option String
+def famOf : String → Option Family
+  | "normal" => some .normal | "binomial" => some .binomial | "poisson" => some .poisson
+  | "gamma" => some .gamma | "inv_gauss" => some .invGauss | _ => none
+
+def splitBar (l : List String) : List (List String) :=
+  l.foldr (fun s acc => if s = "|" then [] :: acc else match acc with
+    | [] => [[s]]
+    | a :: rest => (s :: a) :: rest) [[]]
+
+def toMat (rows cols : Nat) (l : List Float) : Array (Array Float) :=
+  let a := l.toArray
+  (Array.range rows).map (fun i => (Array.range cols).map (fun j => a[i * cols + j]!))
+
+def norm2 (n : Nat) (v : Nat → Float) : Float := Float.sqrt (sumTo n (fun i => v i * v i))
+
+/-- `step <fam> <link> <levels> <expectile|-> <n> <m> | B (n*m) | A (m*m) | y | w | keep(0/1) | beta`
+→ `<rel score residual> <rel lp change of one model step> <beta' …>`:
+the model PIRLS step evaluated at the implementation's coefficients (all floats as bit patterns) -/
+def handle (toks : List String) : Option String :=
+  match toks with
+  | "step" :: fam :: link :: levels :: tau :: n :: m :: rest =>
+    match splitBar rest with
+    | [[], bs, as, ys, ws, ks, betas] => do
+        let fam ← famOf fam
+        let link ← LinkKind.ofName? link
+        let levels ← parseFloat? levels
+        let tau ← (if tau = "-" then some none else (parseFloat? tau).map some)
+        let n ← n.toNat?; let m ← m.toNat?
+        let bl ← parseFloats? bs; let al ← parseFloats? as
+        let y ← parseFloats? ys; let w ← parseFloats? ws; let β ← parseFloats? betas
+        if bl.length ≠ n * m ∨ al.length ≠ m * m ∨ y.length ≠ n ∨ w.length ≠ n ∨ ks.length ≠ n ∨ β.length ≠ m then none else
+        let Bm := toMat n m bl
+        let Am := toMat m m al
+        let ya := y.toArray; let wa := w.toArray; let βa := β.toArray
+        let ka : Array Bool := (ks.map (fun s => s == "1")).toArray
+        let B : Nat → Nat → Float := fun i j => Bm[i]![j]!
+        let A : Nat → Nat → Float := fun i j => Am[i]![j]!
+        let cfg : GlmCfg Float := { fam := fam, link := link, levels := levels, expectile := tau }
+        let d := stepData cfg m B (fun i => ya[i]!) (fun i => wa[i]!) (fun i => ka[i]!) (fun j => βa[j]!)
+        let N := normalMat n B d.keep d.W2 A
+        let rhs := normalRhs n B d.keep d.W2 d.z
+        let res := scoreResidual n m B A d (fun j => βa[j]!)
+        let Nm := (Array.range m).map (fun i => (Array.range m).map (fun j => N i j))
+        let rv := (Array.range m).map rhs
+        let β' ← gaussSolve m Nm rv
+        let relRes := norm2 m res / (norm2 m rhs + 1e-300)
+        let lpNew := linearPredictor m B (fun j => β'[j]!)
+        let relLp := norm2 n (fun r => lpNew r - d.lp r) / (norm2 n d.lp + 1e-300)   -- all rows, as predictions are
+        some (showFloatList (relRes :: relLp :: β'.toList))
+    | _ => none
   | _ => none
 end PyGam.Drv.C01
